@@ -61,10 +61,11 @@ pub(crate) fn parse(range: Option<&HeaderValue>, len: u64) -> ResolvedRanges {
                 Err(_) => return ResolvedRanges::None, // unparseable
                 Ok(l) => l,
             };
-            if last >= len {
+            if last == 0 || len == 0 {
                 continue; // this range is not satisfiable; skip.
             }
-            ranges.push((len - last)..len);
+            // A suffix longer than the entity selects the whole entity (RFC 7233 section 2.1).
+            ranges.push(len.saturating_sub(last)..len);
         } else {
             let first = match u64::from_str(&r[0..hyphen]) {
                 Err(_) => return ResolvedRanges::None, // unparseable
